@@ -8,6 +8,7 @@ mod sx;
 mod c01;
 mod c02;
 mod c07;
+mod c20;
 
 use out::Out;
 
@@ -50,6 +51,7 @@ fn main() {
                 "c01" => c01::run(&args, &mut out),
                 "c02" => c02::run(&args, &mut out),
                 "c07" => c07::run(&args, &mut out),
+                "c20" => c20::run(&args, &mut out),
                 s => { eprintln!("unknown stream {s}"); std::process::exit(2); }
             }
             out.write(&args.out);
